@@ -6,7 +6,6 @@ CONSTANTS
   AliasTargets = {}
   MaxNum = 3
   MaxOps = 8
-  Known = {}
 VIEW View
 PROPERTY ReachBackLink
 CHECK_DEADLOCK FALSE
